@@ -22,3 +22,38 @@ Proof. reflexivity. Qed.
 Lemma compression_tie :
   go_CompressionZSTD = map Byte.to_N comp_zstd /\ go_CompressionLZ4 = map Byte.to_N comp_lz4 /\ go_CompressionNone = [].
 Proof. repeat split; reflexivity. Qed.
+
+(* ---- further constants copied into the model ---- *)
+From Mcap Require Import GoSem Ros1Msg Bag Ros2Schema Py.
+From Coq Require Import ZArith.
+
+Lemma makeSafe_tie : go_makeSafe_limit = max_int32.
+Proof. reflexivity. Qed.
+
+(* NewWriter's default for ChunkSize = 0 *)
+Lemma default_chunk_size_tie :
+  forall o, o_chunked o = true -> o_chunksize o = 0%Z -> o_chunksize (effective_opts o) = Z.of_N go_default_chunk_size.
+Proof. intros o Hc Hz. unfold effective_opts. rewrite Hc, Hz. reflexivity. Qed.
+
+Lemma ros_primitives_tie : go_ros_primitives = map (map Byte.to_N) primitives.
+Proof. reflexivity. Qed.
+
+Lemma ros_separator_tie : go_ros_separator = map Byte.to_N s_sep_line.
+Proof. reflexivity. Qed.
+
+Lemma bag_magic_tie : go_bag_magic = map Byte.to_N bag_magic.
+Proof. reflexivity. Qed.
+
+(* the Python package's opcode table is the Go one, its magic and limits are what Py.v uses *)
+Lemma py_opcodes_tie :
+  [py_op_HEADER; py_op_FOOTER; py_op_SCHEMA; py_op_CHANNEL; py_op_MESSAGE; py_op_CHUNK; py_op_MESSAGE_INDEX; py_op_CHUNK_INDEX;
+   py_op_ATTACHMENT; py_op_ATTACHMENT_INDEX; py_op_STATISTICS; py_op_METADATA; py_op_METADATA_INDEX; py_op_SUMMARY_OFFSET; py_op_DATA_END]
+  = [go_OpHeader; go_OpFooter; go_OpSchema; go_OpChannel; go_OpMessage; go_OpChunk; go_OpMessageIndex; go_OpChunkIndex;
+     go_OpAttachment; go_OpAttachmentIndex; go_OpStatistics; go_OpMetadata; go_OpMetadataIndex; go_OpSummaryOffset; go_OpDataEnd].
+Proof. reflexivity. Qed.
+
+Lemma py_magic_tie : py_magic = map Byte.to_N magic /\ py_magic_size = 8.
+Proof. split; reflexivity. Qed.
+
+Lemma py_limit_tie : limit_4g = Some py_record_size_limit.
+Proof. reflexivity. Qed.
